@@ -9,7 +9,8 @@ Inductive call :=
 | KNamed (id name t v : N) (nested : list call)      (* named_syscall(world, name, input, sysfn::<t>) *)
 | KSpawned (id sid v : N) (nested : list call)       (* spawned_syscall(world, sid, input) *)
 | KSpawn (id sid t : N)                              (* spawn_system(world, sysfn::<t>) *)
-| KDespawn (id sid : N).                             (* world.despawn(sid) *)
+| KDespawn (id sid : N)                              (* world.despawn(sid) *)
+| KNamedDirect (id name t v : N) (nested : list call). (* named_syscall_direct(world, SysName(name, sysfn::<t>), input) *)
 
 Inductive skey := SkSys (t : N) | SkNamed (name t : N) | SkSpawned (sid : N).
 Definition skey_eqb (a b : skey) : bool :=
@@ -95,6 +96,12 @@ Fixpoint run_calls (fuel : nat) (cs : list call) (s : sst) : sst :=
             end
         | KSpawn id sid t => do_spawn sid t s
         | KDespawn id sid => set_spawned (aremove sid (s_spawned s)) s
+        | KNamedDirect id name t v nested =>
+            (* named_syscall.rs:104-146: Err unless the node exists and holds its system; then exactly named_syscall *)
+            match alookup2 name t (s_named s) with
+            | Some (Some _) => end_named id name t v (named_local name t s) (run_calls f nested (begin_named id name t v s))
+            | _ => slog (SRet id None) s
+            end
         end
     end
   end.
